@@ -45,6 +45,17 @@ PERMITTED_FIXED = [
     ({"a": [[[1]], [2]]}, "$..a[*]..*"),
     ([[{"k": {"k": 1}}], [{"k": 2}]], "$[*]..k"),
     ([[[1]], [2]], "$[?@]..*"),
+    # several filter selectors at work at the same time on OBJECTS (consecutive segments, a filter inside a filter,
+    # two filters in one segment): each shuffles its own object's members
+    ({"p": {"u": 1, "v": 2}, "q": {"w": 3}}, "$[?@][?@]"),
+    ({"p": {"u": {"z": 1}, "v": {"z": 2}}, "q": {"w": {"z": 3}}}, "$[?@.u || @.w][?@.z]"),
+    ({"a": {"b": 1, "c": 2}, "d": {"e": 3}}, "$[?@[?@ > 0]]"),
+    ({"a": {"b": 1, "c": 2}, "d": {"e": 0, "f": 4}}, "$[?@[?@ > 3]]"),
+    ({"a": {"b": 1, "c": 2}}, "$..[?@][?@]"),
+    ({"p": {"u": 1, "v": 2}, "q": {"w": 3}}, "$[?@, ?@.w]"),
+    ({"p": {"u": 1, "v": 2}, "q": {"w": 3}}, "$[?@].*"),
+    ({"p": {"u": 1, "v": 2}, "q": {"w": 3}}, "$.*[?@]"),
+    ({"p": {"u": {"k": 1}, "v": {"k": 2}}}, "$[?@.*.k][?@.k][?@]"),
 ]
 
 
@@ -109,7 +120,7 @@ def explore_c17(rng, tier, res, deep=False):
     env = real.make_env(ND_ENV)
     eenv = real.enc_env(ND_ENV)
     queries = ["$..*", "$.*", "$[?@]", "$..[0]", "$..a", "$.*.*", "$..[?@]", "$..*.*", "$..[*]", "$[*,*]", "$..['a','b']",
-               "$[?@.a]", "$..[?@.a]", "$.*..*", "$..*..*", "$[?count(@.*)>0]", "$[?@[?@]]"]
+               "$[?@.a]", "$..[?@.a]", "$.*..*", "$..*..*", "$[?count(@.*)>0]", "$[?@[?@]]", "$[?@][?@]", "$..[?@][?@]", "$[?@].*[?@]", "$[?@, ?@]"]
     small = [d for d in enum_docs(5) if isinstance(d, (list, dict)) and d]
     n_inputs = sizes(tier, deep, 60, 1500)
     cap = 400 if tier != "thorough" else 4000
